@@ -619,6 +619,26 @@ def expected_from_model(fn, model):
     return vals
 
 
+def definition_of(fn, kw, real):
+    """(definition values | None, scale): the Fraction oracle, evaluated when the real call returned (on rejected inputs the
+    definitions are not meaningful)"""
+    try:
+        return ORACLE[fn](kw) if real[0] == "ok" else (None, 1)
+    except (ZeroDivisionError, ValueError, IndexError, OverflowError):
+        return None, 1
+
+
+def definition_verdict(fn, kw, real, exp=None, scale=1):
+    """True / False / None (= the definition does not decide: undefined value or the real call raised) and the mismatch message.
+    The tolerance is the working precision of the case (`tolerance`).  Used by the sweep, by search() and by replay()."""
+    if exp is None:
+        exp, scale = definition_of(fn, kw, real)
+    if exp is None:
+        return None, None, exp
+    msg = real_vs(real, exp, tolerance(fn, kw), scale)
+    return msg is None, msg, exp
+
+
 def check_functional(rep: Report, cases, stream="functional", with_spec=True):
     cases = list(cases)
     lines = ["fn " + model_name(fn) + " " + enc_args(kw) for fn, kw, _ in cases]
@@ -631,11 +651,7 @@ def check_functional(rep: Report, cases, stream="functional", with_spec=True):
         rep.count(fn); rep.count(f"kind:{tag[0]}"); rep.count(f"dtype:{str(dtype_of(kw)).replace('torch.', '')}")
         if len(tag) > 1:
             rep.count(f"n:{min(tag[1], 7) if tag[1] < 7 else ('7-32' if tag[1] <= 32 else '33-256')}")
-        exp, scale = (None, 1)
-        try:
-            exp, scale = ORACLE[fn](kw) if real[0] == "ok" else (None, 1)
-        except (ZeroDivisionError, ValueError, IndexError, OverflowError):
-            exp, scale = None, 1
+        exp, scale = definition_of(fn, kw, real)
         if real[0] == "err":
             rep.count(f"err:{real[1]}")
         rep.case(nontrivial_key=(fn, repr(kw_json(fn, kw))) if nontrivial(fn, kw, exp) else None,
@@ -664,11 +680,11 @@ def check_functional(rep: Report, cases, stream="functional", with_spec=True):
             rep.violation("C07|wasserstein_1d|float64-input|unweighted-cdf-computed-in-float32",
                           f"wasserstein_1d on float64 inputs returns {[t.tolist() for t in real[1]]} where the definition gives {[str(x) for x in exp]} "
                           f"(= {[float(x) for x in exp]}): accurate to float32 rounding only",
-                          {"case": kw_json(fn, kw), "real": [t.tolist() for t in real[1]], "definition": [str(x) for x in exp], "model": o})
+                          {"kind": "functional", "case": kw_json(fn, kw), "real": [t.tolist() for t in real[1]], "definition": [str(x) for x in exp], "model": o})
             continue
         nbad += 1
-        agrees = None if exp is None else (real_vs(real, exp, tol, scale) is None)
-        replay = {"case": kw_json(fn, kw), "real": real[1] if real[0] == "err" else [t.tolist() for t in real[1]],
+        agrees = definition_verdict(fn, kw, real, exp, scale)[0]
+        replay = {"kind": "functional", "case": kw_json(fn, kw), "real": real[1] if real[0] == "err" else [t.tolist() for t in real[1]],
                   "model": o, "definition": [str(x) for x in exp] if exp is not None else None, "mismatch": msg}
         if agrees is False:
             rep.violation(f"C07|{fn}|{config_class(fn, kw)}|differs-from-definition",
@@ -784,6 +800,49 @@ def obs_real(f):
         return ("err", err_kind(e), repr(e)[:160])
 
 
+def tdesc(t: torch.Tensor):
+    return {"shape": list(t.shape), "dtype": str(t.dtype).replace("torch.", ""), "data": t.reshape(-1).tolist()}
+
+
+def is_tdesc(v):
+    return isinstance(v, dict) and {"shape", "dtype", "data"} <= set(v)
+
+
+def tundesc(d) -> torch.Tensor:
+    return torch.tensor(d["data"], dtype=getattr(torch, d["dtype"])).reshape(tuple(d["shape"]))
+
+
+def split_stream(cls, batches, split, key=None):
+    """the first `split` batches on one instance, the rest on another, merged: the merged instance"""
+    a, b = cls(), cls()
+    for i, t in enumerate(batches):
+        (a if i < split else b).update(t)
+    a.merge_state([b])
+    return a
+
+
+def cov_stream_verdict(batches, split):
+    """Covariance over a batched, merged stream vs the definition (sample mean / unbiased covariance of all rows):
+    (agrees: True | False | None when fewer than two rows or compute() raised, real outcome, definition values)"""
+    a = split_stream(M.Covariance, batches, split)
+    real = obs_real(a.compute)
+    rows = [fr(r) for t in batches for r in t]
+    exp = None
+    if len(rows) >= 2:
+        mean, cov = o_cov(rows)
+        exp = mean + [v for r in cov for v in r]
+    agrees = None if exp is None or real[0] != "ok" else real_vs(real, exp, TOL[batches[0].dtype], 16) is None
+    return agrees, real, exp
+
+
+def minmax_stream_verdict(c, batches, split):
+    """Max / Min over a merged stream vs the largest / smallest value seen: (holds, real value, expected value)"""
+    real = float(split_stream(getattr(M, c), batches, split).compute())
+    allv = [v for t in batches for v in fr(t)]
+    exp = max(allv) if c == "Max" else min(allv)
+    return real == float(exp), real, exp
+
+
 def cov_streams(rep: Report, rng: Rng):
     """Covariance / Max / Min on tiny batches (1..3 rows, d in 1..3), any batching: real class vs Lean class model vs definition."""
     jobs = []
@@ -807,11 +866,7 @@ def cov_streams(rep: Report, rng: Rng):
     outs = run_driver(lines)
     nbad = 0
     for (dt, d, batches, split), line, o in zip(jobs, lines, outs):
-        a, b = M.Covariance(), M.Covariance()
-        for i, t in enumerate(batches):
-            (a if i < split else b).update(t)
-        a.merge_state([b])
-        real = obs_real(a.compute)
+        agrees, real, exp = cov_stream_verdict(batches, split)
         model = dec_out(o.split(" | ")[-1])
         rows = [fr(r) for t in batches for r in t]
         rep.count("class:Covariance-tiny"); rep.traces += 1
@@ -826,12 +881,7 @@ def cov_streams(rep: Report, rng: Rng):
             msg = real_vs(real, vals, tol, scale)
         if msg:
             nbad += 1
-            exp = None
-            if len(rows) >= 2:
-                mean, cov = o_cov(rows)
-                exp = mean + [v for r in cov for v in r]
-            agrees = None if exp is None or real[0] != "ok" else real_vs(real, exp, tol, 16) is None
-            replay = {"batches": [t.tolist() for t in batches], "split": split, "dtype": str(dt), "real": str(real)[:300], "model": o, "mismatch": msg}
+            replay = {"kind": "cov-stream", "batches": [tdesc(t) for t in batches], "split": split, "real": str(real)[:300], "model": o, "mismatch": msg}
             if agrees is False:
                 rep.violation("C07|Covariance|batched-stream|differs-from-definition", f"Covariance gives {real} but the definition gives {exp}", replay)
             else:
@@ -858,56 +908,71 @@ def cov_streams(rep: Report, rng: Rng):
     lines = ["prog " + c + " | " + " | ".join(f"u {0 if i < s else 1} input={enc_tensor(b)}" for i, b in enumerate(bs)) + " | m 0 1 | o 0" for c, bs, s in mm]
     outs = run_driver(lines)
     for (c, bs, s), line, o in zip(mm, lines, outs):
-        a, b = getattr(M, c)(), getattr(M, c)()
-        for i, t in enumerate(bs):
-            (a if i < s else b).update(t)
-        a.merge_state([b])
-        real = float(a.compute())
+        holds, real, exp = minmax_stream_verdict(c, bs, s)
         allv = [v for t in bs for v in fr(t)]
-        exp = max(allv) if c == "Max" else min(allv)
         model = dec_out(o.split(" | ")[-1])
         rep.count(f"class:{c}-tiny"); rep.traces += 1
         rep.case(nontrivial_key=(c, line) if len(set(allv)) > 1 else None)
         mv = model[1][0][1][0] if model[0] == "ok" else None
-        if real != float(exp):
-            rep.violation(f"C07|{c}|merged-stream|differs-from-definition", f"{c} gives {real}, the {c.lower()}imum is {exp}", {"batches": [t.tolist() for t in bs], "split": s})
+        if not holds:
+            rep.violation(f"C07|{c}|merged-stream|differs-from-definition", f"{c} gives {real}, the {c.lower()}imum is {exp}",
+                          {"kind": "minmax-stream", "class": c, "batches": [tdesc(t) for t in bs], "split": s})
         elif mv != exp:
             rep.broke(f"correspondence:class-model:{c}", f"model {o} vs real {real}", {"driver_line": line})
 
 # ------------------------------------------------------------------ Fréchet: moment bookkeeping and a + b
 
-def fad_streams(rep: Report, rng: Rng):
-    import torcheval.metrics.audio.fad as fadmod
+class _Emb(torch.nn.Module):
+    def forward(self, x):
+        return x
 
-    class Emb(torch.nn.Module):
-        def forward(self, x):
-            return x
+
+def fad_capture(d: int, updates):
+    """FrechetAudioDistance (identity embedding of dimension d; a waveform row of k·d numbers = k embeddings) fed `updates`
+    [(preds, targets)]: the moments compute() hands to gaussian_frechet_distance -> (mu_x, cov_x, mu_y, cov_y)"""
+    import torcheval.metrics.audio.fad as fadmod
     captured = []
     orig = fadmod.gaussian_frechet_distance
     fadmod.gaussian_frechet_distance = lambda mx, cx, my, cy: captured.append((mx, cx, my, cy)) or torch.tensor(0.0)
-    jobs = []
     try:
-        for _ in range(40 if rep.tier == "quick" else 300):
-            d = rng.choice([1, 2, 3]); k = rng.choice([1, 2, 3])          # each waveform yields k embeddings of dim d
-            nb = rng.randint(1, 3)
-            m = M.FrechetAudioDistance(lambda w, d=d: w.reshape(-1, d), Emb(), d)
-            pb, tb = [], []
-            for _ in range(nb):
-                n = rng.randint(1, 3)
-                p = T(rng.grid(n * k * d, G8), torch.float32, (n, k * d)); t = T(rng.grid(n * k * d, G8), torch.float32, (n, k * d))
-                m.update(p, t); pb.append(p.reshape(-1, d)); tb.append(t.reshape(-1, d))
-            if sum(len(x) for x in pb) < 2:
-                continue
-            captured.clear()
-            m.compute()
-            mx, cx, my, cy = captured[0]
-            jobs.append((pb, (mx, cx))); jobs.append((tb, (my, cy)))
+        m = M.FrechetAudioDistance(lambda w, d=d: w.reshape(-1, d), _Emb(), d)
+        for p, t in updates:
+            m.update(p, t)
+        m.compute()
     finally:
         fadmod.gaussian_frechet_distance = orig
-    lines = ["fn fad.moments_stream embeddings=[" + ";".join(enc_tensor(b) for b in bs) + "]" for bs, _ in jobs]
+    return captured[0]
+
+
+def fad_moments_verdict(d: int, updates, side: str, moments=None):
+    """the moments of one side (`pred` / `target`) vs the sample mean / unbiased covariance of all its embeddings:
+    (agrees, (mu, cov))"""
+    mx, cx, my, cy = moments if moments is not None else fad_capture(d, updates)
+    mu, cov = (mx, cx) if side == "pred" else (my, cy)
+    rows = [fr(r) for u in updates for r in (u[0] if side == "pred" else u[1]).reshape(-1, d)]
+    mean, c = o_cov(rows)
+    return real_vs(("ok", [mu, cov]), mean + [v for r in c for v in r], 2e-5, 16) is None, (mu, cov)
+
+
+def fad_streams(rep: Report, rng: Rng):
+    jobs = []
+    for _ in range(40 if rep.tier == "quick" else 300):
+        d = rng.choice([1, 2, 3]); k = rng.choice([1, 2, 3])          # each waveform yields k embeddings of dim d
+        nb = rng.randint(1, 3)
+        updates = []
+        for _ in range(nb):
+            n = rng.randint(1, 3)
+            p = T(rng.grid(n * k * d, G8), torch.float32, (n, k * d)); t = T(rng.grid(n * k * d, G8), torch.float32, (n, k * d))
+            updates.append((p, t))
+        if sum(len(u[0].reshape(-1, d)) for u in updates) < 2:
+            continue
+        moments = fad_capture(d, updates)
+        jobs.append(([u[0].reshape(-1, d) for u in updates], (moments[0], moments[1]), (d, updates, "pred", moments)))
+        jobs.append(([u[1].reshape(-1, d) for u in updates], (moments[2], moments[3]), (d, updates, "target", moments)))
+    lines = ["fn fad.moments_stream embeddings=[" + ";".join(enc_tensor(b) for b in bs) + "]" for bs, _, _ in jobs]
     outs = run_driver(lines)
     nbad = 0
-    for (bs, (mu, cov)), line, o in zip(jobs, lines, outs):
+    for (bs, (mu, cov), (d, updates, side, moments)), line, o in zip(jobs, lines, outs):
         model = dec_out(o)
         rows = [fr(r) for b in bs for r in b]
         rep.count("fad.moments"); rep.traces += 1
@@ -916,9 +981,9 @@ def fad_streams(rep: Report, rng: Rng):
         msg = f"model {o}" if model[0] != "ok" else real_vs(real, [v for _, dd in model[1] for v in dd], 2e-5, 16)
         if msg:
             nbad += 1
-            mean, c = o_cov(rows)
-            agrees = real_vs(real, mean + [v for r in c for v in r], 2e-5, 16) is None
-            replay = {"embeddings": [b.tolist() for b in bs], "real_mean": mu.tolist(), "real_cov": cov.tolist(), "model": o}
+            agrees, _ = fad_moments_verdict(d, updates, side, moments)
+            replay = {"kind": "fad-moments", "d": d, "side": side, "updates": [[tdesc(p_), tdesc(t_)] for p_, t_ in updates],
+                      "real_mean": mu.tolist(), "real_cov": cov.tolist(), "model": o}
             if not agrees:
                 rep.violation("C07|FrechetAudioDistance.compute|moments|differs-from-definition", "FAD moments differ from the sample mean / unbiased covariance", replay)
             else:
@@ -950,6 +1015,57 @@ def _softplus(z: float) -> float:
     return max(z, 0.0) + math.log1p(math.exp(-abs(z)))
 
 
+COND_NE_FORMS = ("binary_normalized_entropy", "BinaryNormalizedEntropy")
+
+
+def cond_ne_verdict(name, z, y, w, dt):
+    """normalized entropy from (saturating) logits, functional or class form, vs the definition evaluated in float64 from the
+    very numbers fed to torch: (holds, got, reference)"""
+    ww = w or [1.0] * len(z)
+    ce = sum(wi * (_softplus(zi) - zi * yi) for zi, yi, wi in zip(z, y, ww)) / sum(ww)
+    pr = sum(wi * yi for yi, wi in zip(y, ww)) / sum(ww)
+    ref = ce / (-pr * math.log(pr) - (1 - pr) * math.log(1 - pr))
+    zt, yt = torch.tensor(z, dtype=dt), torch.tensor(y, dtype=dt)
+    wt = torch.tensor(w, dtype=dt) if w else None
+    if name == "binary_normalized_entropy":
+        got = float(F.binary_normalized_entropy(zt, yt, weight=wt, from_logits=True))
+    else:
+        m = M.BinaryNormalizedEntropy(from_logits=True); m.update(zt, yt, weight=wt)
+        got = float(m.compute().reshape(-1)[0])
+    tol = 1e-4 if dt == torch.float32 else 1e-10
+    return abs(got - ref) <= tol * abs(ref), got, ref
+
+
+def cond_cov_reference(batches, dt):
+    """exact definition of the covariance of the rows in `batches` (as the float values fed to torch):
+    None when there are fewer than 3 rows or a column is constant (no scale to compare against), else (n, d, cov, sd)"""
+    ts = [torch.tensor(b, dtype=dt) for b in batches]
+    rows = [[Fr(float(v)) for v in row] for t in ts for row in t.tolist()]
+    n = len(rows)
+    if n < 3:
+        return None
+    d = len(rows[0])
+    mean = [sum(r_[c] for r_ in rows) / n for c in range(d)]
+    cov = [[sum((r_[i] - mean[i]) * (r_[j] - mean[j]) for r_ in rows) / (n - 1) for j in range(d)] for i in range(d)]
+    sd = [math.sqrt(float(cov[i][i])) for i in range(d)]
+    if min(sd) == 0:
+        return None
+    return n, d, cov, sd
+
+
+def cond_cov_verdict(batches, split, dt, off, ref):
+    """Covariance of data far from the origin (offset `off`), streamed in `batches` and merged at `split`, vs the exact
+    definition `ref` = cond_cov_reference(batches, dt): (holds, worst relative entry error, tolerance, cov[0][0] real, cov[0][0] exact)"""
+    n, d, cov, sd = ref
+    ts = [torch.tensor(b, dtype=dt) for b in batches]
+    gm, gc = split_stream(M.Covariance, ts, split).compute()
+    # pinned code: error ~ eps·(off/sd) relative to sd_i·sd_j ; one-pass ΣxxT − n·μμT: ~ eps·(off/sd)^2
+    eps = 6e-8 if dt == torch.float32 else 1.2e-16
+    tol = max(200 * eps * off / min(sd), 1e-6)
+    worst = max(abs(float(gc[i][j]) - float(cov[i][j])) / (sd[i] * sd[j]) for i in range(d) for j in range(d))
+    return worst <= tol, worst, tol, float(gc[0][0]), float(cov[0][0])
+
+
 def conditioning_stream(rep: Report, rng: Rng):
     """The theorems are over exact fields; "to within floating-point rounding" is SAMPLED here on the inputs where an
     algebraically equivalent but numerically worse formula would show: saturating logits, data far from the origin
@@ -967,60 +1083,36 @@ def conditioning_stream(rep: Report, rng: Rng):
             if sum(y) in (0, n):
                 y[0] = 1 - y[0]
             w = [rng.choice([0.5, 1.0, 2.0]) for _ in range(n)] if r % 2 else None
-            ww = w or [1.0] * n
-            ce = sum(wi * (_softplus(zi) - zi * yi) for zi, yi, wi in zip(z, y, ww)) / sum(ww)
-            pr = sum(wi * yi for yi, wi in zip(y, ww)) / sum(ww)
-            ref = ce / (-pr * math.log(pr) - (1 - pr) * math.log(1 - pr))
-            kw = dict(from_logits=True)
-            zt, yt = torch.tensor(z, dtype=dt), torch.tensor(y, dtype=dt)
-            wt = torch.tensor(w, dtype=dt) if w else None
-            got_f = float(F.binary_normalized_entropy(zt, yt, weight=wt, **kw))
-            m = M.BinaryNormalizedEntropy(**kw); m.update(zt, yt, weight=wt)
-            got_c = float(m.compute().reshape(-1)[0])
-            tol = 1e-4 if dt == torch.float32 else 1e-10
             rep.case(nontrivial_key=("cond-ne", str(dt), tuple(z), tuple(y)), sample=None)
             rep.count("conditioning:normalized-entropy-saturating-logits")
-            for name, got in (("binary_normalized_entropy", got_f), ("BinaryNormalizedEntropy", got_c)):
-                if not (abs(got - ref) <= tol * abs(ref)):
+            for name in COND_NE_FORMS:
+                holds, got, ref = cond_ne_verdict(name, z, y, w, dt)
+                if not holds:
                     bad += 1
                     rep.violation(f"C07|{name}|from_logits|saturating-logits|differs-from-definition",
                                   f"{name}(from_logits=True) on logits {z}, targets {y}, weights {w} ({dt}) returns {got} but the definition "
                                   f"Σw·(softplus(z) − z·y)/Σw over the base-rate entropy is {ref}",
-                                  {"kind": "cond-ne", "z": z, "y": y, "w": w, "dtype": str(dt), "expected": ref, "got": got})
+                                  {"kind": "cond-ne", "fn": name, "z": z, "y": y, "w": w, "dtype": str(dt).replace("torch.", ""), "expected": ref, "got": got})
         # (b) covariance of data far from the origin, streamed and merged
         for dt, offs in ((torch.float32, [100.0, 3000.0]), (torch.float64, [1e5, 3e8])):
             d = rng.choice([2, 3]); off = rng.choice(offs)
             nb = rng.randint(2, 4)
             batches = [[[off * (1 + c) + float(rng.choice([-2, -1, -0.5, 0, 0.25, 1, 2, 3])) for c in range(d)] for _ in range(rng.choice([1, 2, 5, 9]))]
                        for _ in range(nb)]
-            ts = [torch.tensor(b, dtype=dt) for b in batches]
-            rows = [[Fr(float(v)) for v in row] for t in ts for row in t.tolist()]
-            n = len(rows)
-            if n < 3:
+            ref = cond_cov_reference(batches, dt)
+            if ref is None:
                 continue
-            mean = [sum(r_[c] for r_ in rows) / n for c in range(d)]
-            cov = [[sum((r_[i] - mean[i]) * (r_[j] - mean[j]) for r_ in rows) / (n - 1) for j in range(d)] for i in range(d)]
-            sd = [math.sqrt(float(cov[i][i])) for i in range(d)]
-            if min(sd) == 0:
-                continue
-            a, b = M.Covariance(), M.Covariance()
+            n = ref[0]
             split = rng.randint(1, nb)
-            for i, t in enumerate(ts):
-                (a if i < split else b).update(t)
-            a.merge_state([b])
-            gm, gc = a.compute()
+            holds, worst, tol, got00, exp00 = cond_cov_verdict(batches, split, dt, off, ref)
             rep.case(nontrivial_key=("cond-cov", str(dt), off, n, d), sample=None)
             rep.count("conditioning:covariance-far-from-origin")
-            # pinned code: error ~ eps·(off/sd) relative to sd_i·sd_j ; one-pass ΣxxT − n·μμT: ~ eps·(off/sd)^2
-            eps = 6e-8 if dt == torch.float32 else 1.2e-16
-            tol = max(200 * eps * off / min(sd), 1e-6)
-            worst = max(abs(float(gc[i][j]) - float(cov[i][j])) / (sd[i] * sd[j]) for i in range(d) for j in range(d))
-            if not worst <= tol:
+            if not holds:
                 bad += 1
                 rep.violation("C07|Covariance|far-from-origin|differs-from-definition",
                               f"Covariance ({dt}) on {n} rows offset by {off}: worst entry error {worst:.3g} relative to sd_i·sd_j "
-                              f"(tolerance {tol:.3g}); e.g. cov[0][0] = {float(gc[0][0])} vs definition {float(cov[0][0])}",
-                              {"kind": "cond-cov", "batches": batches, "split": split, "dtype": str(dt)})
+                              f"(tolerance {tol:.3g}); e.g. cov[0][0] = {got00} vs definition {exp00}",
+                              {"kind": "cond-cov", "batches": batches, "split": split, "dtype": str(dt).replace("torch.", ""), "off": off})
         if bad > 6:
             break
     rep.streams["conditioning"] = {"rounds": reps, "violations": bad}
@@ -1045,58 +1137,101 @@ def search(rep: Report):
         real = real_call(fn, kw)
         if real[0] != "ok":
             continue
-        try:
-            exp, scale = ORACLE[fn](kw)
-        except (ZeroDivisionError, ValueError, IndexError, OverflowError):
-            continue
-        if exp is None:
-            continue
-        msg = real_vs(real, exp, tolerance(fn, kw), scale)
-        if msg:
+        agrees, msg, exp = definition_verdict(fn, kw, real)
+        if agrees is False:
             rep.violation(f"C07|{fn}|{config_class(fn, kw)}|differs-from-definition", f"{fn} differs from its definition: {msg}",
-                          {"case": kw_json(fn, kw), "real": [t.tolist() for t in real[1]], "definition": [str(x) for x in exp]})
+                          {"kind": "functional", "case": kw_json(fn, kw), "real": [t.tolist() for t in real[1]], "definition": [str(x) for x in exp]})
 
 
-def _replay_conditioning(r) -> bool:
-    dt = torch.float32 if "32" in r["dtype"] else torch.float64
-    if r["kind"] == "cond-ne":
-        z, y, w = r["z"], r["y"], r["w"]
-        ww = w or [1.0] * len(z)
-        ce = sum(wi * (_softplus(zi) - zi * yi) for zi, yi, wi in zip(z, y, ww)) / sum(ww)
-        pr = sum(wi * yi for yi, wi in zip(y, ww)) / sum(ww)
-        ref = ce / (-pr * math.log(pr) - (1 - pr) * math.log(1 - pr))
-        got = float(F.binary_normalized_entropy(torch.tensor(z, dtype=dt), torch.tensor(y, dtype=dt),
-                                                weight=torch.tensor(w, dtype=dt) if w else None, from_logits=True))
-        return abs(got - ref) <= (1e-4 if dt == torch.float32 else 1e-10) * abs(ref)
-    ts = [torch.tensor(b, dtype=dt) for b in r["batches"]]
-    rows = [[Fr(float(v)) for v in row] for t in ts for row in t.tolist()]
-    n, d = len(rows), len(rows[0])
-    mean = [sum(q[c] for q in rows) / n for c in range(d)]
-    cov = [[sum((q[i] - mean[i]) * (q[j] - mean[j]) for q in rows) / (n - 1) for j in range(d)] for i in range(d)]
-    sd = [math.sqrt(float(cov[i][i])) for i in range(d)]
-    a, b = M.Covariance(), M.Covariance()
-    for i, t in enumerate(ts):
-        (a if i < r["split"] else b).update(t)
-    a.merge_state([b])
-    _, gc = a.compute()
-    off = abs(float(mean[0]))
-    eps = 6e-8 if dt == torch.float32 else 1.2e-16
-    tol = max(200 * eps * off / min(sd), 1e-6)
-    return max(abs(float(gc[i][j]) - float(cov[i][j])) / (sd[i] * sd[j]) for i in range(d) for j in range(d)) <= tol
+def _nothing(reason):
+    raise ValueError(f"nothing to replay: {reason}")
+
+
+def _dtype_of_name(name):
+    if name in ("float32", "torch.float32"):
+        return torch.float32
+    if name in ("float64", "torch.float64"):
+        return torch.float64
+    _nothing(f"unknown dtype {name!r}")
+
+
+def _batches(r):
+    bs = r.get("batches")
+    if not isinstance(bs, list) or not bs or not all(is_tdesc(b) for b in bs) or not isinstance(r.get("split"), int):
+        _nothing("stream payload without its batches (shape, dtype, data) and the shard split")
+    return [tundesc(b) for b in bs], r["split"]
 
 
 def replay(payload) -> bool:
-    if payload["replay"].get("kind") in ("cond-ne", "cond-cov"):
-        return _replay_conditioning(payload["replay"])
-    c = payload["replay"].get("case")
-    if not c:
-        return True
-    fn, kw = kw_from_json(c)
-    real = real_call(fn, kw)
-    try:
-        exp, scale = ORACLE[fn](kw)
-    except (ZeroDivisionError, ValueError, IndexError, OverflowError):
-        return True
-    if exp is None or real[0] != "ok":
-        return True
-    return real_vs(real, exp, tolerance(fn, kw), scale) is None
+    """True iff the property holds on the recorded input; one oracle per payload kind (the one that raised the violation):
+    functional -> definition_verdict; cov-stream -> cov_stream_verdict; minmax-stream -> minmax_stream_verdict;
+    fad-moments -> fad_moments_verdict; cond-ne -> cond_ne_verdict; cond-cov -> cond_cov_verdict."""
+    if not isinstance(payload, dict) or payload.get("kind", "failing-input") != "failing-input":
+        _nothing(f"payload kind {payload.get('kind') if isinstance(payload, dict) else None!r} carries no concrete input")
+    r = payload.get("replay")
+    if not isinstance(r, dict) or not r:
+        _nothing("the payload carries no replay dict")
+    kind = r.get("kind")
+    if kind == "functional" or (kind is None and isinstance(r.get("case"), dict)):
+        c = r.get("case")
+        if not isinstance(c, dict) or c.get("fn") not in ORACLE:
+            _nothing("functional payload without a case of a function that has a definition oracle")
+        fn, kw = kw_from_json(c)
+        real = real_call(fn, kw)
+        if real[0] != "ok":
+            _nothing(f"the real call raises {real[1]} on the recorded input: the definition oracle only judges returned values")
+        agrees, msg, exp = definition_verdict(fn, kw, real)
+        if agrees is None:
+            _nothing(f"the definition of {fn} is undefined on the recorded input")
+        if not agrees:
+            print(f"replay: {fn} differs from its definition: {msg}"[:600])
+        return bool(agrees)
+    if kind == "cov-stream":
+        batches, split = _batches(r)
+        agrees, real, exp = cov_stream_verdict(batches, split)
+        if agrees is None:
+            _nothing("fewer than two rows or compute() raised: the covariance definition does not decide")
+        if not agrees:
+            print(f"replay: Covariance gives {real} but the definition gives {exp}"[:600])
+        return bool(agrees)
+    if kind == "minmax-stream":
+        if r.get("class") not in ("Max", "Min"):
+            _nothing("minmax-stream payload without its class (Max / Min)")
+        batches, split = _batches(r)
+        holds, real, exp = minmax_stream_verdict(r["class"], batches, split)
+        if not holds:
+            print(f"replay: {r['class']} gives {real}, expected {exp}")
+        return bool(holds)
+    if kind == "fad-moments":
+        ups = r.get("updates")
+        if not isinstance(r.get("d"), int) or r.get("side") not in ("pred", "target") or not isinstance(ups, list) or not ups \
+                or not all(isinstance(u, list) and len(u) == 2 and all(is_tdesc(x) for x in u) for u in ups):
+            _nothing("fad-moments payload without embedding dimension, side and the update() batches")
+        updates = [(tundesc(u[0]), tundesc(u[1])) for u in ups]
+        try:
+            moments = fad_capture(r["d"], updates)
+        except Exception as e:  # noqa: BLE001
+            _nothing(f"FrechetAudioDistance did not deliver moments on the recorded stream ({e!r})")
+        agrees, (mu, cov) = fad_moments_verdict(r["d"], updates, r["side"], moments)
+        if not agrees:
+            print(f"replay: FAD {r['side']} moments {mu.tolist()} / {cov.tolist()} differ from the sample mean / unbiased covariance")
+        return bool(agrees)
+    if kind == "cond-ne":
+        if r.get("fn") not in COND_NE_FORMS or not isinstance(r.get("z"), list) or not isinstance(r.get("y"), list) or "w" not in r:
+            _nothing("cond-ne payload without the form (functional / class), logits, targets and weights")
+        holds, got, ref = cond_ne_verdict(r["fn"], r["z"], r["y"], r["w"], _dtype_of_name(r.get("dtype")))
+        if not holds:
+            print(f"replay: {r['fn']} returns {got}, the definition gives {ref}")
+        return bool(holds)
+    if kind == "cond-cov":
+        if not isinstance(r.get("batches"), list) or not isinstance(r.get("split"), int) or not isinstance(r.get("off"), (int, float)):
+            _nothing("cond-cov payload without batches, split and the offset that scales the tolerance")
+        dt = _dtype_of_name(r.get("dtype"))
+        ref = cond_cov_reference(r["batches"], dt)
+        if ref is None:
+            _nothing("fewer than 3 rows or a constant column: no scale to compare against")
+        holds, worst, tol, _g, _e = cond_cov_verdict(r["batches"], r["split"], dt, r["off"], ref)
+        if not holds:
+            print(f"replay: worst covariance entry error {worst:.3g} (tolerance {tol:.3g})")
+        return bool(holds)
+    _nothing(f"replay kind {kind!r} is not one of functional / cov-stream / minmax-stream / fad-moments / cond-ne / cond-cov")
